@@ -115,3 +115,12 @@ for t in ("bui31", "bui63", "bi31", "bi63"):
       ["%s_next" % t], dfcc=True, replace=["%s_next" % t], loop_contracts=True,
       replace_status={"%s_next" % t: "discharged by C19.%s_next" % t},
       solver=["minisat", "kissat"], timeout={"quick": 600, "thorough": 1800})
+for w, nw in (("383", 12), ("447", 14)):
+    O("C19.ass_bi%s" % w, "C19", "h_C19b.c", "h_C19_ass_bi%s" % w,
+      "ass_bi%s: for every well-formed container (native list or bitset) and every x, q of the range: the result is well-formed and q is a member iff it was one or q == x (whole view, witness q); the degrade step through the static scratch array included" % w,
+      ["ass_bi%s" % w, "ass_bs%s" % w, "ass_int%s" % w], unwind=nw + 2, solver=["minisat", "kissat"], timeout={"quick": 600, "thorough": 1800})
+    O("C19.bi%s_next" % w, ["C19", "C01"], "h_C19b.c", "h_C19_bi%s_next" % w,
+      "bi%s_next: for every well-formed container and cursor: a delivered value is a member lying at/after the old and before the new cursor, no undelivered member is skipped, the cursor only moves forward, and the iteration ends only when every member has been delivered (witness q)" % w,
+      ["bi%s_next" % w], unwind=34, solver=["minisat", "kissat"], timeout={"quick": 600, "thorough": 1800})
+O("C19.bi383_max0", "C19", "h_C19b.c", "h_C19_bi383_max0",
+  "bi383_max0: returns max(set U {0})", ["bi383_max0"], unwind=34, solver=["minisat", "kissat"])
